@@ -33,7 +33,7 @@ CHECKS = {
              "statistics (Stats.v): C02_stats_exact (no panic, reports = mean of the last two intervals clamped to u32, for every "
              "operation sequence whose interval totals fit u64, with and without overflow checks), tied by operation sequences with "
              "boundary byte counts on the real Stats in debug and (thorough tier) release builds; a genuine defect (u32 sum overflow: "
-             "task panic / rate 0) was found and repaired.",
+             "task panic / rate 0) was found and repaired. Third part, manager side: histories on the real Session in which peers unchoke while nothing is wanted and announce pieces later; the manager's record of who chokes us must be each peer's last word and an idle unchoked peer announcing a missing piece must be asked at once.",
         note="Partial: termination under weak fairness follows from the variant + enabledness arguments only on paper; the fairness of "
              "tokio's scheduler, TCP, real timers and the terminal UI task are not modelled; the end-to-end runs are exploration, not proof. "
              "Two known findings (known_findings.json: sole-holder-idle-after-reserver-left, sole-holder-have-while-reserved): a sole holder "
@@ -144,7 +144,7 @@ CHECKS = {
              "happens only on PieceDone for i and i stays Have (C11_broadcast, C11_have_stays); on a connection a Have frame is "
              "written only for a broadcast being processed or one held back, a Bitfield frame is exactly the manager's answer "
              "(C11_actions); announcements are held while the peer chokes us and all flushed in completion order at its unchoke "
-             "(C11_held_back, C11_sent_at_once, C11_flush). Tie: broadcast/handshake/choke/unchoke interleavings on the real task.",
+             "(C11_held_back, C11_sent_at_once, C11_flush). Tie: broadcast/handshake/choke/unchoke interleavings on the real task. Manager-side part: completion histories on the real Session (completion after a choke, after the other end-game holder left, duplicate completion); a piece that becomes owned is broadcast as Have and only owned pieces are; the bitfield given to a new connection is the owned set.",
         note="Not modelled: broadcast-channel lag (capacity 32) dropping announcements. No axioms.",
         technique="Coq proof (case analysis of manager and task step functions) + differential correspondence",
         design="2/C11"),
@@ -210,7 +210,7 @@ CHECKS = {
              "closes it (C20_silent); any other message resets the count so the next tick keeps the connection (C20_live); only "
              "the timer increases the count (C20_only_timer_counts); every non-closing tick emits exactly one keep-alive "
              "(C20_emit). Tie: the real PeerHandler under tokio's paused clock, arrival times around k*120 s (+-1 ms), the number "
-             "of boundaries crossed read off the virtual clock.",
+             "of boundaries crossed read off the virtual clock. Manager-side part: kill-heavy histories on the real Session (end-game duplicates, choked holders, tracker answers); after every command no reservation outlives its holders (Reserved(n) => n <= peers assigned the piece and not choking us).",
         note="Partial: tokio Interval burst catch-up when the task is blocked > 120 s in a manager exchange, and select! choice when a "
              "tick and a frame are ready together, are not modelled. No axioms.",
         technique="Coq proof (case analysis of the step function) + differential correspondence under a virtual clock",
